@@ -17,6 +17,11 @@ fn is_t(e: &Ev) -> bool {
     matches!(e, Ev::TRead { .. } | Ev::TWrite { .. } | Ev::TFlush { .. })
 }
 
+/// what was executed, in order: handler entries with their arguments, and reported errors
+fn exec_tokens(o: &Out) -> Vec<Ev> {
+    o.events.iter().filter(|e| matches!(e, Ev::Enter { .. } | Ev::Err(_))).cloned().collect()
+}
+
 /// index (in the event log) of the k-th transport call
 fn t_event_index(o: &Out, k: usize) -> Option<usize> {
     o.events.iter().enumerate().filter(|(_, e)| is_t(e)).nth(k).map(|(i, _)| i)
@@ -156,9 +161,8 @@ impl Prop for C10T {
                 // a genuine deadlock: up to here process did what run does for the same
                 // messages, but did not answer.  If it executed something else (other
                 // handlers or errors), the missing answer is C07/C08's subject.
-                let (th, rh) = (t.handlers(), r.handlers());
-                let (te, re) = (t.errors(), r.errors());
-                if !(th.len() <= rh.len() && th[..] == rh[..th.len()] && te.len() <= re.len() && te[..] == re[..te.len()]) {
+                let (tt, rt) = (exec_tokens(&t), exec_tokens(&r));
+                if !(tt.len() <= rt.len() && tt[..] == rt[..tt.len()]) {
                     return Verdict::Skip("skip:process-executes-differently-from-run(C07/C08)");
                 }
                 return v("deadlock", format!("the instrument asked for more input while the controller was still waiting for an answer (lock-step)\n    {}", brief(&t)))
@@ -170,7 +174,7 @@ impl Prop for C10T {
         // execute the same handlers with the same arguments and errors as run does for the
         // same messages, that difference is C07/C08's subject and the expected answers are
         // not known: the scenario is skipped.
-        if t.handlers() != r.handlers() || t.errors() != r.errors() {
+        if exec_tokens(&t) != exec_tokens(&r) {
             return Verdict::Skip("skip:process-executes-differently-from-run(C07/C08)");
         }
         // ordering and content on T
